@@ -285,12 +285,15 @@ type HStep struct {
 
 // HandlerProg is what the universal handler does for every call.
 type HandlerProg struct {
-	Header  []KV     `json:"header,omitempty"`
-	Trailer []KV     `json:"trailer,omitempty"`
-	Steps   []HStep  `json:"steps,omitempty"`
-	Drain   bool     `json:"drain,omitempty"` // after the steps, receive until the request stream ends
-	Resp    *Msg     `json:"resp,omitempty"`  // unary / client-stream response
-	Final   *ErrSpec `json:"final,omitempty"`
+	Header  []KV    `json:"header,omitempty"`
+	Trailer []KV    `json:"trailer,omitempty"`
+	Steps   []HStep `json:"steps,omitempty"`
+	Drain   bool    `json:"drain,omitempty"` // after the steps, receive until the request stream ends
+	// PropagateRecvErr makes the handler return the error of a failed Receive
+	// (as any realistic handler does) instead of carrying on.
+	PropagateRecvErr bool     `json:"propagate_recv_err,omitempty"`
+	Resp             *Msg     `json:"resp,omitempty"` // unary / client-stream response
+	Final            *ErrSpec `json:"final,omitempty"`
 }
 
 // HCall is what the handler observed during one invocation.
@@ -346,6 +349,7 @@ type runner struct {
 	rt   http.Header // response trailer
 	// PanicFn is consulted for "panic" steps.
 	panicFn func(kind string)
+	recvErr error
 }
 
 func (r *runner) recvN(c hconn, n int) {
@@ -359,6 +363,7 @@ func (r *runner) recvN(c hconn, n int) {
 				r.call.RecvEnd = "eof"
 			} else {
 				r.call.RecvEnd = "err"
+				r.recvErr = err
 			}
 			r.call.RecvErr = ViewErr(err)
 			return
@@ -404,6 +409,9 @@ func (r *runner) steps(c hconn) {
 }
 
 func (r *runner) final() error {
+	if r.p.PropagateRecvErr && r.recvErr != nil {
+		return r.recvErr
+	}
 	if r.p.Final == nil {
 		return nil
 	}
